@@ -99,7 +99,7 @@ class Domain:
   name = 'base'
   fork = False            # fork at `if` instead of joining (loop-free code)
   max_states = 48
-  inline_depth = 8
+  inline_depth = 12
   assume_loops_execute = False
 
   # -- payload constructors
@@ -1695,6 +1695,8 @@ class Engine:
   def call_repo(self, target, args, kwargs, e, st, func, want_flow=False,
                 closure_env=None):
     if target in self.stack or len(self.stack) >= self.dom.inline_depth:
+      # recursion / depth cap: the callee is not analysed on this chain
+      self.depth_cuts = getattr(self, 'depth_cuts', 0) + 1
       return V(self.dom.unknown_call(e, st))
     if target.is_abstract:
       return V(self.dom.unknown_call(e, st))
@@ -1702,6 +1704,14 @@ class Engine:
     if summ is not None:
       return self._wrap(summ)
     bound = self.bind_args(target, args, kwargs, e, st, func)
+    # facts about attributes of a local (x.ndim == 2, ...) travel with the
+    # local when it is passed as a plain name
+    for p_, an in self._arg_pairs(target, e, func):
+      if isinstance(an, ast.Name) and p_ in bound:
+        for k_, v_ in list(st.vars.items()):
+          if isinstance(k_, tuple) and len(k_) == 3 and k_[0] == '@attr' \
+                  and k_[1] == an.id:
+            bound[('@attr', p_, k_[2])] = v_
     flow = self._run_body(target, bound, st, closure_env)
     # raises propagate to the caller's statement
     for (names, s, n) in flow.raises:
@@ -1729,6 +1739,29 @@ class Engine:
     st.aux = js.aux
     self._narrow_args(target, e, js, st, func)
     return self._wrap(self.dom.call_result(target, ret, e, st))
+
+  def _arg_pairs(self, target, e, func):
+    """[(formal name, actual ast)] of a call expression"""
+    if not isinstance(e, ast.Call):
+      return []
+    a = target.node.args
+    pos = [x.arg for x in a.posonlyargs + a.args]
+    if target.cls is not None and not target.is_static and pos:
+      is_bound = isinstance(e.func, ast.Attribute) and not (
+          isinstance(e.func.value, ast.Name) and
+          e.func.value.id in func.module.classes)
+      if is_bound:
+        pos = pos[1:]
+    pairs = []
+    for i, an in enumerate(e.args):
+      if isinstance(an, ast.Starred):
+        break
+      if i < len(pos):
+        pairs.append((pos[i], an))
+    for k in e.keywords:
+      if k.arg is not None:
+        pairs.append((k.arg, k.value))
+    return pairs
 
   def _narrow_args(self, target, e, js, st, func):
     """Facts the callee established about a parameter it never rebinds
